@@ -181,7 +181,7 @@ func c12MakeJob(c *fw.Ctx, r *fw.Rng, kind, idx int) c12Job {
 			exec: func(t int) (string, error) { return run.SNPs(refTxt, aln, hard, agg, 0) }}
 	case 9, 10:
 		measure := []string{"raw", "snp", "tn93"}[r.Intn(3)]
-		qs, ts, _ := c06Inputs(r, measure)
+		qs, ts, _ := c06Inputs(r, measure, false)
 		// more queries: one goroutine per query
 		for len(qs) < 12 {
 			q := qs[r.Intn(len(qs))]
@@ -405,7 +405,7 @@ func runC12Binary(c *fw.Ctx, r *fw.Rng, kind, idx int, res *fw.Result) fw.Result
 		switch r.Intn(7) {
 		case 3, 4:
 			measure := []string{"raw", "snp", "tn93"}[r.Intn(3)]
-			qs, ts, _ := c06Inputs(r, measure)
+			qs, ts, _ := c06Inputs(r, measure, false)
 			var trs []gen.FastaRec
 			for _, t := range ts {
 				trs = append(trs, t.rec)
